@@ -491,7 +491,7 @@ func (l *Loader) SetServerConfig(serverMAC net.HardwareAddr, serverIP net.IP, if
 	if len(serverMAC) >= 6 {
 		copy(config.ServerMAC[:], serverMAC[:6])
 	}
-	config.ServerIP = IPToUint32(serverIP)
+	config.ServerIP = IPToMapUint32(serverIP)
 	config.InterfaceIndex = uint32(ifIndex)
 
 	var key uint32 = 0
@@ -669,6 +669,19 @@ func IPToUint32(ip net.IP) uint32 {
 		return 0
 	}
 	return binary.BigEndian.Uint32(ip)
+}
+
+// IPToMapUint32 converts an IPv4 address to the value stored in eBPF map fields
+// that the kernel programs treat as network-byte-order addresses (copied into
+// yiaddr/saddr or compared with ip->saddr): the four address bytes in wire
+// order as they sit in memory. Map values are marshalled in native byte order,
+// so the numeric value differs from IPToUint32 on little-endian hosts.
+func IPToMapUint32(ip net.IP) uint32 {
+	ip = ip.To4()
+	if ip == nil {
+		return 0
+	}
+	return binary.NativeEndian.Uint32(ip)
 }
 
 // Uint32ToIP converts a uint32 (network byte order) to net.IP
